@@ -148,6 +148,7 @@ type opImpl struct {
 	pre    int      // bytes the operation reads before the first candidate
 	vars   int      // number of API variants (opCase.Var)
 	keys   int      // number of fixed keys (opCase.Key)
+	peers  int      // number of Curve-field flavours of the peer public key struct the call takes (opCase.Peer); 0: it takes none
 	msgLen []int    // message / key lengths generated (nil: the operation has none)
 	force  []int    // opCase.Force values generated besides 0
 	// special returns an operation-specific candidate that forces a documented
@@ -296,7 +297,7 @@ func describe(o *opImpl, c *opCase, stream []byte) string {
 	for _, b := range c.Blocks {
 		kinds = append(kinds, classify(b, o.n))
 	}
-	return fmt.Sprintf("op=%s var=%d key=%d msglen=%d force=%d chunk=%d flags=%d candidates=%v stream=%s", c.Op, c.Var, c.Key, c.MsgLen, c.Force, c.Chunk, c.Flags, kinds, h.Hex(stream))
+	return fmt.Sprintf("op=%s var=%d key=%d msglen=%d force=%d chunk=%d flags=%d peer-struct-curve=%s candidates=%v stream=%s", c.Op, c.Var, c.Key, c.MsgLen, c.Force, c.Chunk, c.Flags, peerCurveNames[c.Peer%len(peerCurveNames)], kinds, h.Hex(stream))
 }
 
 func checkFidelity(o *opImpl, c *opCase, stream []byte, r *h.Rec) error {
@@ -373,6 +374,9 @@ func labelFlags(o *opImpl, c *opCase, r *h.Rec) {
 	}
 	if c.Flags&flagArgs != 0 {
 		r.Label(o.name + "/args-sentinel-and-scribbled")
+	}
+	if o.peers > 1 {
+		r.Label("%s/peer-struct-curve=%s", o.name, peerCurveNames[c.Peer])
 	}
 }
 
@@ -491,6 +495,9 @@ func genFidelity(names ...string) func(*rapid.T) opCase {
 		c.Blocks = drawBlocks(t, o.n)
 		c.Chunk = drawChunk(t)
 		c.Flags = rapid.SampledFrom([]int{0, 0, 0, 0, 1, 2, 3, 4, 5, 6, 7, 7}).Draw(t, "flags")
+		if o.peers > 1 && rapid.Bool().Draw(t, "foreignPeerStruct") {
+			c.Peer = rapid.IntRange(1, o.peers-1).Draw(t, "peer")
+		}
 		switch rapid.IntRange(0, 5).Draw(t, "retryKind") {
 		case 0:
 			if len(o.force) > 0 {
@@ -562,6 +569,12 @@ func scenarios(o *opImpl) []opCase {
 			c.Blocks[0] = b
 			out = append(out, c)
 		}
+		i++
+	}
+	for pc := 1; pc < o.peers; pc++ { // every Curve-field flavour of the peer struct
+		c := mk(i, 0, kN, kNp1, kRandLess)
+		c.Peer = pc
+		out = append(out, c)
 		i++
 	}
 	for v := 1; v < o.vars; v++ { // every API variant at least once
